@@ -304,10 +304,13 @@ Qed.
 Lemma stop_rule_false data depth :
   stop_rule m cub mins data depth = false ->
   (cub < len data)%Z /\ (cub < distinct (concat data))%Z /\
-  fleb (cell_size (axis_of m depth) data) (nth (Z.to_nat (axis_of m depth)) mins f0) = false.
+  fleb (cell_size (axis_of m depth) data) (nth (Z.to_nat (axis_of m depth)) mins f0) = false /\
+  fleb (col_max (column (axis_of m depth) data)) (midpoint (axis_of m depth) data) = false.
 Proof.
   unfold stop_rule. destruct (Z.leb_spec (len data) cub); [discriminate|].
-  destruct (Z.leb_spec (distinct (concat data)) cub); [discriminate|]. auto.
+  destruct (Z.leb_spec (distinct (concat data)) cub); [discriminate|].
+  destruct (fleb (cell_size (axis_of m depth) data) (nth (Z.to_nat (axis_of m depth)) mins f0));
+    [discriminate|]. auto.
 Qed.
 
 Lemma stop_rule_small data depth : (len data <= cub)%Z -> stop_rule m cub mins data depth = true.
@@ -331,11 +334,12 @@ Lemma built_split_reason data depth t :
   forall ax mid c l r, t = Node ax mid c l r ->
     (cub < len data)%Z /\ (cub < distinct (concat data))%Z /\
     fleb (cell_size ax data) (nth (Z.to_nat ax) mins f0) = false /\
+    fleb (col_max (column ax data)) mid = false /\
     ax = (depth mod m)%Z /\ mid = midpoint ax data /\
     built (lower ax mid data) (depth + 1) l /\ built (upper ax mid data) (depth + 1) r.
 Proof.
   intros H ax mid c l r E. destruct H; try discriminate.
-  inversion E; subst. apply stop_rule_false in H1 as (A & B & C). repeat split; auto.
+  inversion E; subst. apply stop_rule_false in H1 as (A & B & C & D). repeat split; auto.
 Qed.
 
 Section BuildOrd.
@@ -769,12 +773,12 @@ Qed.
 End History.
 
 (** ---------------------------------------------------------------- fuel adequacy, completeness *)
-(** what the midpoint computation has to satisfy (true of exact arithmetic; for IEEE doubles the
-    second law fails exactly when [lo + (hi - lo)/2] rounds up to [hi], e.g. for adjacent doubles) *)
+(** what the midpoint computation has to satisfy for the lower part of a split to be non-empty
+    (true of exact arithmetic, and of IEEE doubles by monotonicity of rounding; without it
+    [mid < min] would send every point to the upper part and [build] would not terminate).
+    Nothing is needed for the upper part: the stop rule's last clause guarantees [mid < max]. *)
 Record MidLaws := {
-  mid_ge_lo : forall lo hi : F, fleb lo hi = true -> fleb lo (lo + (hi - lo) / two) = true;
-  mid_lt_hi : forall lo hi : F, fleb lo hi = true -> fleb hi (lo + (hi - lo) / two) = true ->
-              fleb ((lo + (hi - lo) / two) - lo) f0 = true
+  mid_ge_lo : forall lo hi : F, fleb lo hi = true -> fleb lo (lo + (hi - lo) / two) = true
 }.
 
 Section Fuel.
@@ -783,7 +787,6 @@ Variable ML : MidLaws.
 Variable m : Z.
 Variable cub : Z.
 Variable mins : list F.
-Hypothesis mins_nonneg : forall k, fleb f0 (nth k mins f0) = true.
 
 Let ord := ltb_leb N OL.
 
@@ -836,10 +839,10 @@ Lemma split_nonempty data depth :
   lower axis (midpoint axis data) data <> [] /\ upper axis (midpoint axis data) data <> [].
 Proof.
   intros Hd Hs axis.
-  apply stop_rule_false in Hs as (_ & _ & Hc). fold axis in Hc.
+  apply stop_rule_false in Hs as (_ & _ & _ & Hc). fold axis in Hc.
   assert (Hcol : column axis data <> []) by (destruct data; [congruence | discriminate]).
   pose proof (col_min_le_max (column axis data)) as Hmm.
-  unfold cell_size, midpoint, ptp in *.
+  unfold midpoint, ptp in *.
   set (lo := col_min (column axis data)) in *. set (hi := col_max (column axis data)) in *.
   split.
   - destruct (in_column axis data lo (col_min_in _ Hcol)) as (p & Hp & Ep).
@@ -848,10 +851,7 @@ Proof.
     rewrite E in Hin. exact Hin.
   - destruct (in_column axis data hi (col_max_in _ Hcol)) as (p & Hp & Ep).
     intros E. assert (Hin : In p (upper axis (lo + (hi - lo) / two) data)).
-    { unfold upper. apply filter_In. split; [exact Hp|]. rewrite Ep, ord.
-      destruct (fleb hi (lo + (hi - lo) / two)) eqn:Eh; [|reflexivity].
-      pose proof (mid_lt_hi ML lo hi Hmm Eh) as Hz.
-      rewrite (leb_trans N OL _ _ _ Hz (mins_nonneg (Z.to_nat axis))) in Hc. discriminate. }
+    { unfold upper. apply filter_In. split; [exact Hp|]. rewrite Ep, ord, Hc. reflexivity. }
     rewrite E in Hin. exact Hin.
 Qed.
 
@@ -893,6 +893,36 @@ Proof.
     split; [|discriminate]. repeat split; auto.
 Qed.
 End Fuel.
+
+(** under the order laws alone an internal node of a built tree has a non-empty upper part, hence a
+    right child: the last clause of the stop rule gives [mid < max] *)
+Section UpperOnly.
+Variable OL : OrdLaws N.
+Lemma upper_nonempty m cub mins (data : list point) depth :
+  data <> [] -> stop_rule m cub mins data depth = false ->
+  upper (axis_of m depth) (midpoint (axis_of m depth) data) data <> [].
+Proof.
+  intros Hd Hs. apply stop_rule_false in Hs as (_ & _ & _ & Hc).
+  set (axis := axis_of m depth) in *.
+  assert (Hcol : column axis data <> []) by (destruct data; [congruence | discriminate]).
+  destruct (in_column axis data _ (col_max_in OL _ Hcol)) as (p & Hp & Ep).
+  intros E. assert (Hin : In p (upper axis (midpoint axis data) data)).
+  { unfold upper. apply filter_In. split; [exact Hp|]. rewrite Ep, (ltb_leb N OL), Hc. reflexivity. }
+  rewrite E in Hin. exact Hin.
+Qed.
+
+Lemma built_not_nil m cub mins (data : list point) depth t :
+  built m cub mins data depth t -> data <> [] -> m <> 0%Z -> t <> Nil.
+Proof. intros H. destruct H; intros A B; try congruence; discriminate. Qed.
+
+Lemma built_right_child m cub mins (data : list point) depth ax mid c l r :
+  built m cub mins data depth (Node ax mid c l r) -> upper ax mid data <> [] /\ r <> Nil.
+Proof.
+  intros H. inversion H as [ | | | ? ? ? ? Hd Hm Hs Hl Hr]; subst.
+  pose proof (upper_nonempty m cub mins data depth Hd Hs) as Hu. split; [exact Hu|].
+  eapply built_not_nil; eauto.
+Qed.
+End UpperOnly.
 
 Lemma getd_single id k : id <> 0%Z -> getd id [(0%Z, k)] = 0%Z.
 Proof. intros H. unfold getd. cbn [lookup]. destruct (Z.eqb_spec 0 id); [congruence | reflexivity]. Qed.
@@ -1164,17 +1194,9 @@ Qed.
 Lemma NumQ08_mid : @MidLaws NumQ08.
 Proof.
   constructor; simpl; unfold two; simpl.
-  - intros lo hi H. apply Qle_bool_iff in H. apply Qle_bool_iff.
-    setoid_replace (lo + (hi - lo) / inject_Z 2)%Q with ((lo + hi) / 2)%Q by (unfold inject_Z; field).
-    apply Qle_shift_div_l; [reflexivity | lra].
-  - intros lo hi H1 H2. apply Qle_bool_iff in H1, H2. apply Qle_bool_iff.
-    setoid_replace (lo + (hi - lo) / inject_Z 2 - lo)%Q with ((hi - lo) / 2)%Q by (unfold inject_Z; field).
-    assert (E : (lo + (hi - lo) / inject_Z 2 == (lo + hi) / 2)%Q) by (unfold inject_Z; field).
-    rewrite E in H2.
-    assert (H3 : (hi * 2 <= lo + hi)%Q).
-    { apply (Qmult_le_r _ _ 2) in H2; [|reflexivity].
-      setoid_replace ((lo + hi) / 2 * 2)%Q with (lo + hi)%Q in H2 by field. exact H2. }
-    apply Qle_shift_div_r; [reflexivity | lra].
+  intros lo hi H. apply Qle_bool_iff in H. apply Qle_bool_iff.
+  setoid_replace (lo + (hi - lo) / inject_Z 2)%Q with ((lo + hi) / 2)%Q by (unfold inject_Z; field).
+  apply Qle_shift_div_l; [reflexivity | lra].
 Qed.
 
 Fixpoint qsum (l : list Q) : Q := match l with [] => 0%Q | x :: t => (x + qsum t)%Q end.
